@@ -92,6 +92,33 @@ fn definition_histories() -> (Universe, Vec<Vec<Op>>) {
         h.push(Op::Alias(i, "f".into()));
     }
     hs.push(h);
+    // slot reuse: a package owning several nodes is unregistered (or its nodes are removed one by
+    // one), then as many independent same-rank nodes are created; the identifiers they receive
+    // and the order they are emitted in must not depend on how the freed slots were collected
+    for n in ["a", "b", "c", "d", "e", "f"] {
+        u.names.valid_extern.insert(n.to_string());
+    }
+    for insts in 2..=4u32 {
+        for by_unregister in [true, false] {
+            let mut h: Vec<Op> = vec![Op::Register(0)];
+            for _ in 0..insts {
+                h.push(Op::Instantiate(0));
+            }
+            h.push(Op::Alias(0, "g".into()));
+            if by_unregister {
+                h.push(Op::Unregister(0));
+            } else {
+                h.push(Op::Remove(insts)); // the alias
+                for i in (0..insts).rev() {
+                    h.push(Op::Remove(i));
+                }
+            }
+            for n in ["a", "b", "c", "d", "e", "f"].iter().take(insts as usize + 2) {
+                h.push(Op::Import(n.to_string(), 0));
+            }
+            hs.push(h);
+        }
+    }
     (u, hs)
 }
 
@@ -413,6 +440,11 @@ pub fn run(args: &[String]) {
         inputs.insert(base.clone());
         for h in variants.keys() {
             distinct_hashes.insert(h.clone());
+        }
+        if variants.contains_key("rebuild-failed") {
+            // a recorded history that does not replay gives no hash to compare: never silently equal
+            ctx.violation("C16/history-does-not-replay", format!("{base}: the recorded history does not replay on a fresh graph"), json!({"tier": tier.as_str(), "input": base.split('/').take(3).collect::<Vec<_>>().join("/"), "seeds": [0, 1]}));
+            continue;
         }
         if base.ends_with("clone-equals-original") {
             if variants.keys().any(|h| h != "true") {
